@@ -115,6 +115,7 @@ type Pipe struct {
 	closed   bool
 	rclosed  bool         // the read end is gone: writes fail like EPIPE
 	WriteFailures int
+	ReadErrFired  bool
 	reader   *kernel.Task // parked reader
 	writer   *kernel.Task // parked writer
 	Writes   int
@@ -217,6 +218,7 @@ func (r pipeReader) Read(b []byte) (int, error) {
 	p.Reads++
 	p.ReadsThisOp++
 	if p.F.R.ErrAt != 0 && p.Reads == p.F.R.ErrAt {
+		p.ReadErrFired = true
 		p.T.Fault("read_err")
 		p.T.Logf("read #%d fails (injected)", p.Reads)
 		return 0, ErrInjected
